@@ -41,6 +41,8 @@ def run(R):
     if not R.build():
         return
     R.lean(["C11", "C11Header"])
+    import hunted
+    hunted.run(R, "C11")
     quick = R.tier == "quick"
     rng = R.rng
     reqs, dist = ties.t4_requests(rng, 9000 if quick else 150000)
